@@ -151,7 +151,10 @@ func (s *Server) writeAOF(args []string, d *commandDetails) error {
 		return nil
 	}
 
-	if s.shrinking {
+	if s.shrinking && d != nil && d.command == "rename" {
+		// a rename cannot be replayed over the partially scanned file
+		s.shrinklogRename(d)
+	} else if s.shrinking {
 		nargs := make([]string, len(args))
 		copy(nargs, args)
 		s.shrinklog = append(s.shrinklog, nargs)
